@@ -1,0 +1,93 @@
+//go:build verif
+
+package sql
+
+// Contracts checked by /verif/gocv (comment-only file; see /verif/DESIGN.md §3).
+
+// C11. PutObject replaces everything: the row written for the new object carries exactly the supplied content type,
+// system metadata and storage class (absent where none was supplied), and on success the object's tag rows and user
+// metadata rows have been replaced by exactly the supplied maps (cleared when empty) - for a fresh key as well as for
+// an overwrite.
+//@ func (*sqlMetadataStore).PutObject
+//@ mode effects
+//@ requires obj != nil
+//@ trust nonnil object.Repository
+//@ trust nonnil bucket.Repository
+//@ effect[C11:put-row-carries-supplied-values] every sms.objectRepository.SaveObject(_, _, $e) if $e != nil && $e.IsLatest
+//@     where specSameOpt($e.ContentType, obj.ContentType) && specSameOpt($e.StorageClass, obj.StorageClass) && specRowCarriesMetadata($e, obj.Metadata) && $e.Key == obj.Key
+//@ ensures[C11:put-replaces-tags-and-user-metadata] err == nil ==> called(sms.replaceObjectTags) && called(sms.replaceObjectUserMetadata)
+//@ effect[C11:put-tags-are-the-supplied-ones] every sms.replaceObjectTags(_, _, $id, $tags) where same($tags, obj.Tags)
+//@ effect[C11:put-user-metadata-is-the-supplied-one] every sms.replaceObjectUserMetadata(_, _, $id, $um) where same($um, obj.Metadata.UserMetadata)
+
+// The two replace helpers clear the object's rows first and then store exactly the given pairs under that object.
+//@ func (*sqlMetadataStore).replaceObjectTags
+//@ mode effects
+//@ ensures[C11:tags-cleared-first] err == nil ==> called(sms.tagRepository.DeleteTagsByObjectId)
+//@ effect[C11:tags-cleared-for-this-object] every sms.tagRepository.DeleteTagsByObjectId(_, _, $id) where $id == objectId
+//@ effect[C11:tag-rows-are-the-given-pairs] every sms.tagRepository.SaveTag(_, _, $t)
+//@     needs before sms.tagRepository.DeleteTagsByObjectId(_, _, $id) -> ($e)
+//@     where $e == nil && $t != nil && $t.ObjectId == objectId
+
+//@ func (*sqlMetadataStore).replaceObjectUserMetadata
+//@ mode effects
+//@ ensures[C11:user-metadata-cleared-first] err == nil ==> called(sms.userMetadataRepository.DeleteUserMetadataByObjectId)
+//@ effect[C11:user-metadata-cleared-for-this-object] every sms.userMetadataRepository.DeleteUserMetadataByObjectId(_, _, $id) where $id == objectId
+//@ effect[C11:user-metadata-rows-are-the-given-pairs] every sms.userMetadataRepository.SaveUserMetadata(_, _, $m)
+//@     needs before sms.userMetadataRepository.DeleteUserMetadataByObjectId(_, _, $id) -> ($e)
+//@     where $e == nil && $m != nil && $m.ObjectId == objectId
+
+// C11, multipart uploads. CreateMultipartUpload records the supplied content type, system metadata and storage class
+// on the pending row (absent where none was supplied) and stores exactly the supplied tags and user metadata under it.
+//@ func (*sqlMetadataStore).CreateMultipartUpload
+//@ mode effects
+//@ effect[C11:pending-row-carries-supplied-values] every sms.objectRepository.SaveObject(_, _, $e)
+//@     where $e != nil && $e.Key == key && specSameOpt($e.ContentType, contentType) &&
+//@         (opts == nil ==> $e.StorageClass == nil) && (opts != nil ==> specSameOpt($e.StorageClass, opts.StorageClass)) &&
+//@         (opts != nil && opts.Metadata != nil ==> specRowCarriesMetadata($e, *opts.Metadata)) &&
+//@         (opts == nil || opts.Metadata == nil ==> specRowCarriesMetadata($e, metadatastore.ObjectMetadata{}))
+//@ ensures[C11:pending-tags-stored] err == nil && opts != nil && len(opts.Tags) > 0 ==> called(sms.replaceObjectTags)
+//@ ensures[C11:pending-user-metadata-stored] err == nil && opts != nil && opts.Metadata != nil && len(opts.Metadata.UserMetadata) > 0 ==> called(sms.replaceObjectUserMetadata)
+//@ effect[C11:pending-tags-are-the-supplied-ones] every sms.replaceObjectTags(_, _, $id, $tags) where opts != nil && same($tags, opts.Tags)
+//@ effect[C11:pending-user-metadata-is-the-supplied-one] every sms.replaceObjectUserMetadata(_, _, $id, $um) where opts != nil && opts.Metadata != nil && same($um, opts.Metadata.UserMetadata)
+
+// CompleteMultipartUpload publishes the pending row of this very upload (so the tags and user metadata stored under
+// its id stay attached) with the content type, system metadata and storage class it was created with; the only tag /
+// user-metadata rows it deletes are those of the null version it replaces.
+//@ func (*sqlMetadataStore).CompleteMultipartUpload
+//@ mode effects
+//@ trust nonnil object.Repository
+//@ effect[C11:completed-row-is-the-pending-row] every sms.objectRepository.SaveObject(_, _, $e) if $e != nil && $e.IsLatest
+//@     needs before sms.objectRepository.FindObjectByBucketNameAndKeyAndUploadId(_, _, $b, $k, $u) -> ($p, $pe)
+//@     where $pe == nil && $p != nil && $e == $p && $b == bucketName && $k == key && $u == uploadId && specRowsAgreeOnMetadata($e, $p) && specSameOpt($e.StorageClass, $p.StorageClass)
+//@ effect[C11:only-replaced-null-version-loses-tags] every sms.tagRepository.DeleteTagsByObjectId(_, _, $id)
+//@     needs before sms.objectRepository.FindNullObjectVersionByBucketNameAndKey(_, _, _, _) -> ($n, $ne)
+//@     where $ne == nil && $n != nil && $id == *$n.Id
+//@ effect[C11:only-replaced-null-version-loses-user-metadata] every sms.userMetadataRepository.DeleteUserMetadataByObjectId(_, _, $id)
+//@     needs before sms.objectRepository.FindNullObjectVersionByBucketNameAndKey(_, _, _, _) -> ($n, $ne)
+//@     where $ne == nil && $n != nil && $id == *$n.Id
+
+// AppendObject and TransitionObject preserve content type, system metadata and (append) storage class of the row they
+// rewrite, and never touch tag or user-metadata rows.
+//@ func (*sqlMetadataStore).AppendObject
+//@ mode effects
+//@ requires obj != nil
+//@ inline PutObject
+//@ effect[C11:append-preserves-row-metadata] every sms.objectRepository.UpdateObjectByIdAndOptimisticLockVersion(_, _, $e, _)
+//@     needs before sms.objectRepository.FindObjectByBucketNameAndKey(_, _, _, _) -> ($old, $oe)
+//@     where $oe == nil && $old != nil && $e != nil && specRowsAgreeOnMetadata($e, $old) && specSameOpt($e.StorageClass, $old.StorageClass) && $e.Id == $old.Id
+//@ effect[C11:append-keeps-tags] never sms.tagRepository.$M(__) if oldObjectEntity != nil
+//@ effect[C11:append-keeps-user-metadata] never sms.userMetadataRepository.$M(__) if oldObjectEntity != nil
+
+//@ func (*sqlMetadataStore).TransitionObject
+//@ mode effects
+//@ trust nonnil bucket.Repository
+//@ effect[C11:transition-changes-only-the-class-of-the-version] every sms.objectRepository.UpdateObjectByIdAndOptimisticLockVersion(_, _, $e, _) if versionID != nil
+//@     needs before sms.objectRepository.FindObjectByBucketNameAndKeyAndVersionID(_, _, $b, $k, $v) -> ($old, $oe)
+//@     where $oe == nil && $e != nil && $e.Id == $old.Id && $b == bucketName && $k == key && $v == *versionID && specRowsAgreeOnMetadata($e, $old) &&
+//@         $e.StorageClass != nil && *$e.StorageClass == storageClass && $e.ETag == expectedETag && $e.ETag == $old.ETag
+//@ effect[C11:transition-changes-only-the-class-of-the-current-object] every sms.objectRepository.UpdateObjectByIdAndOptimisticLockVersion(_, _, $e, _) if versionID == nil
+//@     needs before sms.objectRepository.FindObjectByBucketNameAndKey(_, _, $b, $k) -> ($old, $oe)
+//@     where $oe == nil && $e != nil && $e.Id == $old.Id && $b == bucketName && $k == key && specRowsAgreeOnMetadata($e, $old) &&
+//@         $e.StorageClass != nil && *$e.StorageClass == storageClass && $e.ETag == expectedETag && $e.ETag == $old.ETag
+//@ effect[C11:transition-keeps-tags] never sms.tagRepository.$M(__)
+//@ effect[C11:transition-keeps-user-metadata] never sms.userMetadataRepository.$M(__)
